@@ -1,5 +1,6 @@
 import Driver.Common
 import IoraModel.Model.TlsPlan
+import IoraModel.Model.TlsLife
 /-! `iora_model tls`: the model's prediction for one C07 matrix cell per line (same line protocol as harness/c07_tls.cpp). -/
 namespace Iora.Driver.Tls
 open Iora Iora.Tls Iora.Driver
@@ -12,13 +13,10 @@ def showVerify (fl : List VFlag) : String :=
     | .clientOnce => "CLIENT_ONCE"
     | .postHandshake => "POST_HANDSHAKE")
 
-def showTrust : Trust → String
-  | .none => "none"
-  | .locations true true => "file+path"
-  | .locations true false => "file"
-  | .locations false true => "path"
-  | .locations false false => "?"
-  | .default => "default"
+/-- the SET of sources loaded into the context's store, as the harness interposer prints it -/
+def showTrust (t : Trust) : String :=
+  let parts := (if t.file then ["file"] else []) ++ (if t.path then ["path"] else []) ++ (if t.dflt then ["default"] else [])
+  if parts.isEmpty then "none" else "+".intercalate parts
 
 def showRole : Mode → String
   | .server => "server" | .client => "client" | .none => "?"
@@ -93,7 +91,27 @@ def cipherClass : Option String → CipherClass
   | some "noanon0" => .restricts            -- "ALL:!aNULL:@SECLEVEL=0"
   | _ => .default
 
-def cliCell (verify trust scert ceil peer target min enabled defmode req : String) (ciphers : CipherClass) : Option String := do
+/-- Run the session machine of `Model/TlsPlan.lean` + the receive side of `Model/TlsLife.lean` over the schedule every cell of the
+harness produces: (a greeting / early application bytes are sent right after the session exists) · (bytes of the peer arrive while the
+handshake is still running) · the handshake ends (`ok`: `SSL_do_handshake` = 1, else a fatal result) · the application sends again.
+`true` = some byte went out raw or was delivered to `onData` without passing `SSL_read`: the `cleartext` column of a TLS plan. -/
+def sessionLeaks (p : Plan) (outbound : Bool) (req : Mode) (ok : Bool) : Bool :=
+  match p.session outbound req with
+  | none => false
+  | some s =>
+    let evs : List REv := [.out (.appSend [69]), .inp [80] none, .out (.epoll true none), .inp [81] (some ok), .out (.appSend [65]), .out (.epoll true none)]
+    (rRun s evs).any fun
+      | .deliverRaw _ => true
+      | .out (.rawWire _) => true
+      | _ => false
+
+/-- … and whether `onData` / `onConnect` fire at all before the handshake result is known (must be `false`) -/
+def sessionEarly (p : Plan) (outbound : Bool) (req : Mode) : Bool :=
+  match p.session outbound req with
+  | none => false
+  | some s => !(rRun s [.out (.appSend [69]), .inp [80] none, .out (.epoll true none), .inp [81] none]).isEmpty
+
+def cliCell (verify trust scert ceil peer target min enabled defmode req : String) (ciphers : CipherClass) (other : Bool) (sys : String) (depth : Int) (ownCert : Bool) : Option String := do
   let cert ← parseSCert scert
   let ce ← parseCeil ceil
   let (kind, plainOk) ← parsePeer peer
@@ -104,18 +122,21 @@ def cliCell (verify trust scert ceil peer target min enabled defmode req : Strin
   let tgt ← (match target with | "name" => some (Target.name theHost) | "ip" => some .ipv4 | "ip6" => some .ipv6 | _ => none)
   let v ← parseBit verify
   let en ← parseBit enabled
+  let sysA ← parseAnchors sys
+  -- `other=1`: the engine ALSO holds the context of the other role (a dual-role engine)
   let tc : TCfg := { client := { enabled := en, defaultMode := dm, verifyPeer := v, caFileSet := caSet trust, caPathSet := trust == "path", minVersion := mn,
-                                 ciphers := ciphers } }
+                                 ciphers := ciphers, verifyDepth := depth, certFileSet := ownCert, keyFileSet := ownCert },
+                     server := if other then { enabled := true, defaultMode := .server, certFileSet := true, keyFileSet := true } else {} }
   let tf : TFiles := { client := { caLoads := caLoads trust } }
   let p := connectPlan tc tf rq tgt
   match p with
   | .tls .. =>
-    let o := clientOutcome Ossl.ref p configured .empty { kind := kind, cert := cert, ceil := ce }
-    pure (line p o.isSome o.isSome false o)
+    let o := clientOutcome Ossl.ref p configured sysA { kind := kind, cert := cert, ceil := ce }
+    pure (line p o.isSome o.isSome (sessionLeaks p true rq o.isSome || sessionEarly p true rq) o)
   | .plain => pure (line p true plainOk true none)
   | .refuse _ => pure (line p false false false none)
 
-def srvCell (verify trust own ccert ceil peer min enabled defmode req : String) (greet : Bool) (ciphers : CipherClass) : Option String := do
+def srvCell (verify trust own ccert ceil peer min enabled defmode req : String) (greet : Bool) (ciphers : CipherClass) (other : Bool) (sys : String) (depth : Int) : Option String := do
   let (haveCert, files) ← parseOwn own
   let cc ← parseCCert ccert
   let ce ← parseCeil ceil
@@ -126,14 +147,16 @@ def srvCell (verify trust own ccert ceil peer min enabled defmode req : String) 
   let mn ← min.toInt?
   let v ← parseBit verify
   let en ← parseBit enabled
+  let sysA ← parseAnchors sys
   let tc : TCfg := { server := { enabled := en, defaultMode := dm, certFileSet := haveCert, keyFileSet := haveCert, verifyPeer := v,
-                                 caFileSet := caSet trust, caPathSet := trust == "path", minVersion := mn, ciphers := ciphers } }
+                                 caFileSet := caSet trust, caPathSet := trust == "path", minVersion := mn, ciphers := ciphers, verifyDepth := depth },
+                     client := if other then { enabled := true, defaultMode := .client } else {} }
   let tf : TFiles := { server := { files with caLoads := caLoads trust } }
   let p := listenPlan tc tf rq
   match p with
   | .tls .. =>
-    let o := serverOutcome Ossl.ref p configured .empty { kind := kind, cert := cc, ceil := ce }
-    pure (line p o.isSome o.isSome false o)
+    let o := serverOutcome Ossl.ref p configured sysA { kind := kind, cert := cc, ceil := ce }
+    pure (line p o.isSome o.isSome (sessionLeaks p false rq o.isSome || sessionEarly p false rq) o)
   | .plain => pure (line p true plainOk (plainOk || greet) none)
   | .refuse _ => pure (line p false false false none)
 
@@ -154,18 +177,19 @@ def httpCell (verify ca sys scert url ceil peer : String) : Option String := do
   | .plain => pure (line p true (kind != .tls) true none)
   | .refuse _ => pure (line p false false false none)
 
-def hsrvCell (require ca own ccert ceil peer : String) : Option String := do
+def hsrvCell (require ca own ccert ceil peer : String) (sys : String) : Option String := do
   let (haveCert, files) ← parseOwn own
   let cc ← parseCCert ccert
   let ce ← parseCeil ceil
   let (kind, plainOk) ← parsePeer peer
   let configured ← parseAnchors ca
   let r ← parseBit require
+  let sysA ← parseAnchors sys
   let tf : TFiles := { server := { files with caLoads := caLoads ca } }
   let p := httpServerPlan (some { certFileSet := haveCert, keyFileSet := haveCert, caFileSet := caSet ca, requireClientCert := r }) tf
   match p with
   | .tls .. =>
-    let o := serverOutcome Ossl.ref p configured .empty { kind := kind, cert := cc, ceil := ce }
+    let o := serverOutcome Ossl.ref p configured sysA { kind := kind, cert := cc, ceil := ce }
     pure (line p o.isSome o.isSome false o)
   | .plain => pure (line p plainOk plainOk plainOk none)
   | .refuse _ => pure (line p false false false none)
@@ -218,6 +242,64 @@ def reconfCell (v1 trigger v2 : String) : Option String := do
   let r2 := req (s2.applied.getD s2.stored)
   pure s!"set2={if threw then "throw" else "ok"} r1={r1} r2={r2.1} verify2={r2.2}"
 
+/-- `hslife <seq> <peer>`: one HttpServer, the calls of `seq` (`E` = enableTls(valid cert, key), `S` = start, `X` = stop, joined by `-`),
+then — if the server is started — one GET by a TLS or a plaintext peer -/
+def hslifeCell (seq peer : String) : Option String := do
+  let (kind, plainOk) ← parsePeer peer
+  let ops ← (seq.splitOn "-").mapM (fun
+    | "E" => some (HSOp.enableTls {}) | "S" => some HSOp.start | "X" => some HSOp.stop | _ => none)
+  let rec go (st : HSState) (acc : List String) : List HSOp → HSState × List String
+    | [] => (st, acc)
+    | o :: os =>
+      let r := hsStep st o
+      go r.1 (match o with | .enableTls _ => acc ++ [if r.2 then "throw" else "ok"] | _ => acc) os
+  let (st, en) := go {} [] ops
+  let ens := if en.isEmpty then "-" else ",".intercalate en
+  match st.plan {} with
+  | none => pure ("plan=none connected=0 appdata=0 cleartext=0 version=- en=" ++ ens)
+  | some p =>
+    match p with
+    | .tls .. =>
+      let o := serverOutcome Ossl.ref p .empty .empty { kind := kind, cert := none, ceil := 772 }
+      pure (line p o.isSome o.isSome (sessionLeaks p false .server o.isSome) o ++ " en=" ++ ens)
+    | .plain => pure (line p plainOk plainOk plainOk none ++ " en=" ++ ens)
+    | .refuse _ => pure (line p false false false none ++ " en=" ++ ens)
+
+/-- `hinit <bad> <url>`: HttpClient; setTlsConfig{verifyPeer, caFile = an unloadable file}; https request (the initialisation FAILS);
+setTlsConfig{verifyPeer, no caFile} (the system store of the cell holds the right CA); https request to `<url>` (name | ip).
+`r2=skip`: the harness does not send the second request when the corrected settings were refused. -/
+def hinitCell (bad url : String) : Option String := do
+  if !(bad == "badfile" || bad == "missing") then none
+  let u ← (match url with | "name" => some (UrlHost.name theHost) | "ip" => some .ipv4 | _ => none)
+  let c1 : HttpTls := { verifyPeer := true, caFileSet := true }
+  let c2 : HttpTls := { verifyPeer := true, caFileSet := false }
+  let s0 := hRun {} [.setTls c1]
+  let f1 := hStep s0 .touchFail
+  let set2 := hStep f1.1 (.setTls c2)
+  let t2 := hStep set2.1 .touch
+  let r2 := if set2.2 then "skip" else if t2.2 then "err" else
+    (let p := httpClientPlan (t2.1.applied.getD c2) {} true u true
+     let o := clientOutcome Ossl.ref p .empty .right { kind := .tls, cert := CertKind.valid.props, ceil := 772 }
+     if o.isSome then "200" else "err")
+  pure s!"r1={if f1.2 then "err" else "200"} set2={if set2.2 then "throw" else "ok"} r2={r2}"
+
+/-- `udp <connect|listen> <req>` -/
+def udpCell (op req : String) : Option String := do
+  let rq ← parseMode req
+  let p ← (match op with | "connect" => some (udpConnectPlan rq) | "listen" => some (udpListenPlan rq) | _ => none)
+  match p with
+  | .plain => pure (line p true false false none)
+  | _ => pure (line p false false false none)
+
+/-- `svc <cert> <key> <ca> <require>`: the plan of IoraService's webhook server for the given optional `server.tls` settings (model only:
+the service singleton is not run inside the harness; the executed witness is kept in corpus/C07/FC07f-*.json) -/
+def svcCell (cert key ca require : String) : Option String := do
+  let c ← parseBit cert
+  let k ← parseBit key
+  let a ← parseBit ca
+  let r ← parseBit require
+  pure ("plan=" ++ showPlan (servicePlan { certSet := c, keySet := k, caSet := a, requireClientCert := r } {}))
+
 def optOf (toks : List String) (k : String) : Option String :=
   (toks.find? (fun t => t.startsWith (k ++ "="))).map (fun t => (t.drop (k.length + 1)).toString)
 
@@ -225,17 +307,25 @@ def step (_ : Unit) (toks : List String) : Unit × String :=
   let opts := toks.filter (fun t => t.contains '=')
   let greet := optOf opts "greet" == some "1"
   let ciphers := cipherClass (optOf opts "ciphers")
+  let other := optOf opts "other" == some "1"
+  let sys := (optOf opts "sys").getD "empty"
+  let depth : Int := ((optOf opts "depth").bind String.toInt?).getD 4
+  let ownCert := (optOf opts "owncert").isSome
   match toks.filter (fun t => !t.contains '=') with
   | ["certtable"] => ((), certTable)
   | ["cli", _api, verify, trust, scert, ceil, peer, target, min, _et, _batch, enabled, defmode, req] =>
-    ((), (cliCell verify trust scert ceil peer target min enabled defmode req ciphers).getD "bad-op")
+    ((), (cliCell verify trust scert ceil peer target min enabled defmode req ciphers other sys depth ownCert).getD "bad-op")
   | ["srv", verify, trust, own, ccert, ceil, peer, min, _et, _batch, enabled, defmode, req] =>
-    ((), (srvCell verify trust own ccert ceil peer min enabled defmode req greet ciphers).getD "bad-op")
+    ((), (srvCell verify trust own ccert ceil peer min enabled defmode req greet ciphers other sys depth).getD "bad-op")
   | ["hurl", scheme, form, verify, peer] => ((), (urlCell scheme form verify peer).getD "unmodelled")
   | ["hreuse", first, second, _verify] => ((), (reuseCell first second).getD "bad-op")
   | ["hreconf", v1, trigger, v2] => ((), (reconfCell v1 trigger v2).getD "bad-op")
   | ["http", verify, ca, sys, scert, url, ceil, peer] => ((), (httpCell verify ca sys scert url ceil peer).getD "bad-op")
-  | ["hsrv", require, ca, own, ccert, ceil, peer] => ((), (hsrvCell require ca own ccert ceil peer).getD "bad-op")
+  | ["hsrv", require, ca, own, ccert, ceil, peer] => ((), (hsrvCell require ca own ccert ceil peer sys).getD "bad-op")
+  | ["hslife", seq, peer] => ((), (hslifeCell seq peer).getD "bad-op")
+  | ["hinit", bad, url] => ((), (hinitCell bad url).getD "bad-op")
+  | ["udp", op, req] => ((), (udpCell op req).getD "bad-op")
+  | ["svc", cert, key, ca, require] => ((), (svcCell cert key ca require).getD "bad-op")
   | ["fires"] => ((), "fires")
   | _ => ((), "bad-op")
 
